@@ -13,17 +13,17 @@ CLAIMS = {
  'C11': ('model_checking', 'add_vertex/add_edge/add_face/add_cell: accept <=> specification predicate, reject/dedup => state unchanged, accept => exactly one entity appended with the given definition; every bottom-up subset', 'bounded (<= 2 per kind, lists <= 2); tet/hex overrides not yet under contract'),
  'C12': ('model_checking', 'all mutator obligations repeated for every bottom-up subset the function reads, vstd bounds assertions live on every cache access; enable_*(true) == recompute, enable_*(false) == empty', 'bounded as C01/C02/C17'),
  'C17': ('model_checking', 'swap_{cell,face,edge,vertex}_indices = transposition applied to definitions, flags, caches, ghost properties; swap twice = identity; self-swap no-op; from any WF state within the bounds', 'bounded (<= 2 per kind); definitions of deleted-but-uncollected entities only required to stay in range'),
+ 'C04': ('model_checking', 'collect_garbage / leaving deferred mode: no pending deletions afterwards and the entities, definitions (expressed in unique ids) and property values are exactly those of the logical mesh, for any pattern of pending deletions on any WF state within the bounds', 'bounded (<= 2 per kind; with caches: 1 vertex/edge); StatusAttrib::garbage_collection and tracked-handle remapping not decided'),
+ 'C06': ('proof', 'Encoder/Decoder primitives and all six header codecs are mutually inverse for every value (bit-exact float/double), written sizes equal the documented sizes', 'lemma level only: chunk sequencing, property directory, geometry writer templates and the ASCII format are not under contract'),
+ 'C07': ('proof', 'every unchecked Decoder primitive under a contract requiring enough remaining bytes; every header reader run on a decoder of unbounded size/position with pointer checks: no over-read, exact consumption; kernel add_* tolerate any in-range list (bounded)', 'OVMB only; property codecs, topology chunk bodies and the ASCII reader not yet under contract'),
+ 'C18': ('proof', 'internal_read_file: Ok implies EOF chunk seen, stream exhausted, state Ok (loop invariant, unbounded chunks); header readers reject short buffers, bad magic/version/reserved/enum values; padding bytes must be zero', 'read_chunk and kernel calls are contract stubs; stream modelled by byte counts'),
  'C20': ('model_checking', 'every const query under contract leaves the complete mesh state unchanged (same_state / empty assigns clause): no write, hence no data race between read-only threads', 'frame theorem only; no interleaving is executed; libstdc++ const-member thread safety assumed'),
 }
 NA = {
- 'C04': 'collect_garbage obligations not built yet (planned: tier B on GC-staged WF states)',
- 'C06': 'OVMB/ASCII round trip: codec lemmas not built yet',
- 'C07': 'reader memory safety: OVMB decoder contracts not built yet (kernel side is covered under C11)',
  'C13': 'copy/assignment independence is about object ownership (shared_ptr, destructors, implicit special members); the C extraction maps container copy to deep copy by definition, so a contract would restate the model, not check the code (DESIGN 5)',
  'C14': 'property registry lifetime (reference counts, destructor order, Tracker back-pointers) is not representable in the extracted C: destructors and shared_ptr are dropped by the extraction (DESIGN 5)',
  'C15': 'tetrahedral kernel obligations not built yet',
  'C16': 'hexahedral kernel obligations not built yet',
- 'C18': 'OVMB reader state machine contracts not built yet',
  'C19': 'vector algebra contracts not built yet',
 }
 m = {"version": 1, "setup_cmd": "python3 run.py setup",
